@@ -19,7 +19,7 @@ field evaluated at the real coordinate `(r - fix0 - sub0, c - fix1 - sub1)` — 
 theorem propagateField_sample (hcast : ∀ n : Int, (RealLike.ofInt n : R) = (n : R))
     (t : TField K R) (αr αc : R) (oe : Extent) (P0 P1 : Int)
     (hoe : oe.rmin ≤ oe.rmax ∧ oe.cmin ≤ oe.cmax) (hP : 0 < P0 ∧ 0 < P1) (r c : Int) :
-    (match propagateField t αr αc oe P0 P1 with | some g => g.emb r c | none => 0) =
+    embO (propagateField t αr αc oe P0 P1) r c =
       if oe.inb r c && (propExtent P0 P1 t.fix0 t.fix1).inb r c
       then fraunhoferAt t.fld αr αc (RealLike.ofInt (r - t.fix0) - t.sub0) (RealLike.ofInt (c - t.fix1) - t.sub1)
       else 0 := by
@@ -27,7 +27,7 @@ theorem propagateField_sample (hcast : ∀ n : Int, (RealLike.ofInt n : R) = (n 
   · -- a field is produced; its extent is the intersection extent
     unfold propagateField
     rw [dftWindow_some oe P0 P1 t.fix0 t.fix1 hoe hP hi]
-    simp only [Fld.emb, Fld.extent, dft2_s0, dft2_s1]
+    simp only [embO, Fld.emb, Fld.extent, dft2_s0, dft2_s1]
     rw [inter_roundtrip _ _ hi]
     unfold embAt
     by_cases hin : (intersectionExtent oe (propExtent P0 P1 t.fix0 t.fix1)).inb r c = true
@@ -46,6 +46,7 @@ theorem propagateField_sample (hcast : ∀ n : Int, (RealLike.ofInt n : R) = (n 
       cases h : intersect oe (propExtent P0 P1 t.fix0 t.fix1) <;> simp_all
     unfold propagateField
     rw [dftWindow_none oe P0 P1 t.fix0 t.fix1 hn]
+    simp only [embO]
     have hb : (oe.inb r c && (propExtent P0 P1 t.fix0 t.fix1).inb r c) = false := by
       cases h1 : oe.inb r c <;> cases h2 : (propExtent P0 P1 t.fix0 t.fix1).inb r c <;> simp
       exact hi (inter_inb_imp_intersect _ _ r c ((inter_inb_iff _ _ r c).mpr ⟨h1, h2⟩))
@@ -60,8 +61,8 @@ theorem window_only_selects (hcast : ∀ n : Int, (RealLike.ofInt n : R) = (n : 
     (hoe' : oe'.rmin ≤ oe'.rmax ∧ oe'.cmin ≤ oe'.cmax) (hP' : 0 < P0' ∧ 0 < P1') (r c : Int)
     (hin : (oe.inb r c && (propExtent P0 P1 t.fix0 t.fix1).inb r c) = true)
     (hin' : (oe'.inb r c && (propExtent P0' P1' t.fix0 t.fix1).inb r c) = true) :
-    (match propagateField t αr αc oe P0 P1 with | some g => g.emb r c | none => 0) =
-    (match propagateField t αr αc oe' P0' P1' with | some g => g.emb r c | none => 0) := by
+    embO (propagateField t αr αc oe P0 P1) r c =
+    embO (propagateField t αr αc oe' P0' P1') r c := by
   rw [propagateField_sample hcast t αr αc oe P0 P1 hoe hP r c,
       propagateField_sample hcast t αr αc oe' P0' P1' hoe' hP' r c]
   simp only [hin, hin', if_true]
